@@ -4,8 +4,11 @@ import glob, json, os
 root = os.path.dirname(os.path.dirname(os.path.abspath(__file__)))
 base = json.load(open(os.path.join(root, 'tools', 'manifest_base.json')))
 checks = []
-for p in sorted(glob.glob(os.path.join(root, 'tools', 'checks', 'c*.json'))):
-    checks.append(json.load(open(p)))
+integrated = set(open(os.path.join(root, 'tools', 'integrated.txt')).read().split())
+for p in sorted(glob.glob(os.path.join(root, 'tools', 'checks', 'c[0-9][0-9].json'))):
+    c = json.load(open(p))
+    if c['property_id'] in integrated:
+        checks.append(c)
 base['checks'] = checks
 claimed = {c['property_id'] for c in checks}
 props = [json.loads(l)['id'] for l in open(os.path.join(root, 'properties.jsonl'))]
